@@ -520,4 +520,27 @@ var corpus = []corpusCase{
 		return types.Transactions{etx(&types.ExternalTx{To: &to, Gas: b.GasLimit()/5 + 1, Value: big.NewInt(7), EtxType: types.DefaultType,
 			OriginatingTxHash: oh, ETXIndex: 0, Sender: c.w.farQuai[0].addr})}
 	}},
+	// An inbound ETX whose gas limit (>= 21000, as opETX / CreateETX require at the origin) does not cover
+	// the intrinsic gas of its own data at the destination: ApplyMessage returns ErrIntrinsicGas.
+	{"etx-gas-below-intrinsic", 8, func(c *chain, i int, b *types.WorkObject) types.Transactions {
+		if i != 2 {
+			return nil
+		}
+		var out types.Transactions
+		for k := 0; k < 3; k++ {
+			to := c.w.eoas[k].addr
+			var oh common.Hash
+			oh[0], oh[2], oh[31] = 0x01, 0x01, byte(0x80+k)
+			e := &types.ExternalTx{To: &to, Gas: 100000, Value: big.NewInt(int64(1000 + k)), EtxType: types.DefaultType, OriginatingTxHash: oh, ETXIndex: uint16(k), Sender: c.w.farQuai[0].addr}
+			if k == 1 {
+				e.Gas = 21000
+				e.Data = make([]byte, 64)
+				for j := range e.Data {
+					e.Data[j] = byte(j + 1)
+				}
+			}
+			out = append(out, etx(e))
+		}
+		return out
+	}},
 }
